@@ -8,6 +8,11 @@ from .core import *
 from .models import B
 
 ENT = {60: '&lt;', 62: '&gt;', 38: '&amp;', 39: '&apos;', 34: '&quot;'}
+class QNameV(list):
+    """quick_xml::name::QName(&[u8]): a tuple struct; field .0 is the byte slice, into_inner() too"""
+    def __getitem__(self, i):
+        if i == 0: return Ref(Box_(list(self)))          # the field is a `&[u8]`
+        raise IndexError('QName has one field')
 class Elem:
     def __init__(self, name): self.name, self.attrs = name, []          # attrs: [(key str, raw value chars)]
 class AttrObj:
@@ -70,7 +75,7 @@ def install(it):
         deref_all(e).attrs.append((pstr(SStr(key.chars if hasattr(key, 'chars') else list(key))), list(chars))); return []
     m(r"quick_xml::events::BytesStart::<'_>::push_attribute::<(?:'_, )?quick_xml::events::attributes::Attribute<'_>>", push_raw)
     m(r'quick_xml::Writer::<.*>::write_event::<.*>', lambda it_, w, ev: (deref_all(w).events.append(ev), OK([]))[1])
-    m(r"quick_xml::events::BytesStart::<'_>::attributes", lambda it_, e: PyIter([OK(AttrObj([ord(x) for x in k], list(v))) for k, v in deref_all(e).attrs]))
+    m(r"quick_xml::events::BytesStart::<'_>::attributes", lambda it_, e: PyIter([OK(AttrObj(QNameV([ord(x) for x in k]), list(v))) for k, v in deref_all(e).attrs]))
     m(r"quick_xml::events::attributes::Attributes::<'_>::with_checks", lambda it_, a, flag: a)
     m(r"quick_xml::name::QName::<'_>::into_inner", lambda it_, q: Ref(Box_(list(q))))
     def slice_eq(it_, a, b):
@@ -139,7 +144,7 @@ def install_events(it):
         r = unescape(it_, deref_all(t).raw)
         return ERR('EscapeError') if r is None else OK(Adt(1, [SStr(r)]))
     m(r"quick_xml::events::BytesText::<'_>::unescape", text_unescape)
-    m(r"quick_xml::events::(BytesStart|BytesEnd)::<'_>::name", lambda it_, e: [ord(c) for c in deref_all(e).name])
+    m(r"quick_xml::events::(BytesStart|BytesEnd)::<'_>::name", lambda it_, e: QNameV([ord(c) for c in deref_all(e).name]))
     m(r"<std::borrow::Cow<'_, str> as std::string::ToString>::to_string", lambda it_, c: SStr(deref_all(deref_all(c).fields[0]).chars))
     m(r'std::vec::Vec::<u8>::clear', lambda it_, v: [])
     it.models = ms + list(it.models)
